@@ -91,6 +91,8 @@ def drop_redundant(seq):
             continue
         if out and out[-1][0] == pos:
             out[-1] = (pos, val)
+            if len(out) > 1 and out[-2][1] == val:
+                out.pop()
             continue
         out.append((pos, val))
     return out
@@ -379,3 +381,85 @@ def kept_lines(raw_lines):
     return kept, dropped, {"textual_duplicates": n_textual, "pedals": pedals,
                            "dup_sids": sorted(s for s, k in sid_count.items() if k > 1),
                            "dup_pids": sorted(p for p, k in pid_count.items() if k > 1)}
+
+
+# --------------------------------------------------------------------------- reference writer (v1.0.0)
+_MOD_TEXT = {0: "n", 1: "#", -1: "b", 2: "x", -2: "bb"}
+
+
+def _frac_text(x):
+    x = Fraction(x)
+    return str(x.numerator) if x.denominator == 1 or x == 0 else f"{x.numerator}/{x.denominator}"
+
+
+def write_text(A, alignment, pnotes, controls, ppq, mpq, right_align_pickup=False):
+    """The match file (format 1.0.0) of an alignment, written from the format description:
+    beats are units of the time signature's denominator counted from 1 inside the bar, the offset from
+    the beat and the duration are fractions of a whole note, positions in beats carry four decimals.
+    `A` = abstract_part(part); `pnotes` = {id: {pitch, velocity, on, off}} (seconds); lines are ordered by
+    score time (performed-only lines by their onset between them is not required by the format: appended)."""
+    bm = A["bm"]
+    q = A["q"]
+    base = 0 if A["pickup"] else 1
+    out = ["info(matchFileVersion,1.0.0).", "info(piece,-).", "info(scoreFileName,-).", "info(midiFileName,-).",
+           "info(composer,-).", "info(performer,-).", f"info(midiClockUnits,{int(ppq)}).", f"info(midiClockRate,{int(mpq)})."]
+
+    def place(t):
+        """(bar number, beat from 1, offset in whole notes) of position t (divisions)."""
+        mi = A["measure_of"](t)
+        ms, me = A["measures"][mi]
+        b, bt = bm.sig_at(ms)
+        per_beat = Fraction(4 * q, bt)
+        rel = Fraction(t - ms)
+        if right_align_pickup and mi == 0 and A["pickup"]:
+            rel += Fraction(4 * q * b, bt) - (me - ms)       # the pickup counted from the start of a virtual full bar
+        k = rel // per_beat
+        return base + mi, int(k) + 1, (rel - k * per_beat) / (4 * q)
+
+    for key, attr in (("ks_raw", "keySignature"), ("ts_raw", "timeSignature")):
+        for rec in sorted(A[key]):
+            t = rec[0]
+            bar, beat, offs = place(t)
+            val = P.key_name(rec[1], rec[2]) if attr == "keySignature" else f"{rec[1]}/{rec[2]}"
+            out.append(f"scoreprop({attr},{val},{bar}:{beat},{_frac_text(offs)},{float(bm.beat(t)):.4f}).")
+
+    def snote(sid):
+        e = A["notes"][sid]
+        bar, beat, offs = place(e["t"])
+        attrs = []
+        if e["voice"] is not None:
+            attrs.append(f"v{e['voice']}")
+        if e["staff"] is not None:
+            attrs.append(f"staff{e['staff']}")
+        attrs += e["all_articulations"]
+        if e["grace"]:
+            attrs.append("grace")
+        return (f"snote({sid},[{e['step']},{_MOD_TEXT[e['alter']]}],{e['octave']},{bar}:{beat},{_frac_text(offs)},"
+                f"{_frac_text(e['dur_q'] / 4)},{float(e['onset_beat']):.4f},{float(e['offset_beat']):.4f},[{','.join(attrs)}])")
+
+    def note(pid):
+        e = pnotes[pid]
+        on, _ = tick_of(e["on"], mpq, ppq)
+        off, _ = tick_of(e["off"], mpq, ppq)
+        return f"note({prefixed(pid)},{e['pitch']},{on},{off},{e['velocity']},{e.get('channel', 0)},{e.get('track', 0)})."
+
+    lines = []
+    for a in alignment:
+        lab = a["label"]
+        if lab == "match":
+            lines.append((A["notes"][a["score_id"]]["onset_beat"], snote(a["score_id"]) + "-" + note(a["performance_id"])))
+        elif lab == "deletion":
+            lines.append((A["notes"][a["score_id"]]["onset_beat"], snote(a["score_id"]) + "-deletion."))
+        elif lab == "insertion":
+            lines.append((None, "insertion-" + note(a["performance_id"])))
+        elif lab == "ornament":
+            lines.append((A["notes"][a["score_id"]]["onset_beat"], f"ornament({a['score_id']},[{a['type']}])-" + note(a["performance_id"])))
+    out += [l for k, l in sorted((x for x in lines if x[0] is not None), key=lambda x: x[0])]
+    out += [l for k, l in lines if k is None]
+    peds = []
+    for c in controls:
+        if c["number"] in (64, 67):
+            tick, _ = tick_of(c["time"], mpq, ppq)
+            peds.append((tick, f"{'sustain' if c['number'] == 64 else 'soft'}({tick},{int(c['value'])})."))
+    out += [l for _, l in sorted(peds, key=lambda x: x[0])]
+    return "\n".join(out) + "\n"
